@@ -210,6 +210,9 @@ add(Job('lemma_rank', 'harness/lemma_rank.c', loops=True, defines=['-DPART_MONO'
 add(Job('lemma_rank_inst', 'harness/lemma_rank.c', no_dfcc=True, defines=['-DPART_INST'], timeout=300, reach=1, expect=['assertion'],
         functions=['dot-rank function (the four instance shapes assumed by the strchr model)'], files=[],
         note='loop-free; monotonicity instances are assumed here and proved in lemma_rank'))
+add(Job('cli_sanitize', 'harness/cli_sanitize.c', enforce='sanitize_utf8', loops=True, timeout=1200, reach=2, mem_est=10,
+        expect=['postcondition', 'loop_invariant_base', 'loop_invariant_step', 'loop_decreases'], functions=['sanitize_utf8 (bin/main.h)'], files=['bin/main.h'], assumptions=[A2, A9],
+        note='CLI helper; text length <= 2^31; not part of any claimed property (C20 is not claimed), kept because it proves the repaired function'))
 add(Job('lemma_local', 'harness/lemma_local.c', no_dfcc=True, timeout=300, reach=1, expect=['assertion'],
         functions=['spec automata (lemmas)'], files=[], note='loop-free over a symbolic (state, character) pair: complete'))
 
